@@ -5,8 +5,8 @@ parser behind `PhQ::ParseNumber`:
 * `fixedDigits n x` / `sciDigits n x`: what `printf("%.nf")` / `printf("%.ne")` print for an exact
   dyadic value — the exact decimal expansion rounded half-even at the requested digit (the contract of
   a correctly rounding `printf`, e.g. glibc's);
-* `print fm x`: the interval cascade of `PhQ::Print`, whose thresholds are the *double* literals
-  `0.001 … 10000.0`, compared exactly with `|x|`;
+* `print fm x`: the interval cascade of `PhQ::Print`, whose thresholds are the literals of the source,
+  compared exactly with `|x|`;
 * `parseDec fm s`: decimal text → exact rational → `Fl.round` (the contract of a correctly rounding
   `strtof/strtod/strtold`).
 The model is tied to the code by the correspondence check (textio `print` / `num`).
@@ -27,74 +27,138 @@ def rne (n d : Nat) : Nat := Fl.rneDiv n d
 
 def padLeft (k : Nat) (s : String) : String := String.ofList (List.replicate (k - s.length) '0') ++ s
 
-/-- `%.<prec>f` of the non-negative rational `n/d`. -/
-def fixedPos (prec : Nat) (n d : Nat) : String :=
-  let scaled := rne (n * 10 ^ prec) d
-  let ip := scaled / 10 ^ prec
-  let fp := scaled % 10 ^ prec
-  if prec = 0 then toString ip else toString ip ++ "." ++ padLeft prec (toString fp)
+/-- `10^e ≤ n/d`, decided on integers. -/
+def ge10 (n d : Nat) (e : Int) : Bool :=
+  if 0 ≤ e then d * 10 ^ e.toNat ≤ n else d ≤ n * 10 ^ (-e).toNat
 
-/-- `⌊log₁₀ (n/d)⌋` for positive `n/d`, by search from an estimate (fuel-bounded). -/
+/-- Walk up from a power of ten known to be `≤ n/d` to the last one that is. -/
+def searchUp (n d : Nat) : Nat → Int → Int
+  | 0, e => e
+  | fuel + 1, e => if ge10 n d (e + 1) then searchUp n d fuel (e + 1) else e
+
+/-- `e` if `10^e ≤ n/d < 10^(e+1)`. -/
+def pick10 (n d : Nat) (e : Int) : Option Int :=
+  if ge10 n d e && !ge10 n d (e + 1) then some e else none
+
+/-- `⌊log₁₀ (n/d)⌋` for positive `n/d`: an estimate from the bit lengths, checked; if the check fails
+(it does not, on the inputs the driver sees) a plain search that is correct by construction. -/
 def ilog10Q (n d : Nat) : Int :=
-  -- estimate from bit lengths: log10(x) ≈ log2(x)·0.30103
-  let l2 : Int := (n.log2 : Int) - (d.log2 : Int)
-  let est : Int := (l2 * 30103) / 100000
-  -- adjust: want 10^e ≤ n/d < 10^(e+1)
-  let ge (e : Int) : Bool := if 0 ≤ e then d * 10 ^ e.toNat ≤ n else d ≤ n * 10 ^ (-e).toNat
-  let rec fix (fuel : Nat) (e : Int) : Int :=
-    match fuel with
-    | 0 => e
-    | fuel + 1 => if !ge e then fix fuel (e - 1) else if ge (e + 1) then fix fuel (e + 1) else e
-  fix 8 est
+  let est : Int := (((n.log2 : Int) - (d.log2 : Int)) * 30103) / 100000
+  match pick10 n d est with
+  | some e => e
+  | none =>
+    match pick10 n d (est - 1) with
+    | some e => e
+    | none =>
+      match pick10 n d (est + 1) with
+      | some e => e
+      | none => searchUp n d (n.log2 + d.log2 + 2) (-((d.log2 : Int) + 1))
 
-/-- `%.<prec>e` of the positive rational `n/d`. -/
-def sciPos (prec : Nat) (n d : Nat) : String :=
+/-- What `PhQ::Print` selects for a number, before it is laid out as text. -/
+inductive Printed where
+  | zero
+  /-- `%.<prec>f`: the value is `scaled / 10^prec`. -/
+  | fixed (neg : Bool) (scaled : Nat) (prec : Nat)
+  /-- `%.<prec>e`: the value is `m · 10^(e - prec)`, `m` having `prec + 1` digits. -/
+  | sci (neg : Bool) (m : Nat) (prec : Nat) (e : Int)
+deriving DecidableEq, Repr, Inhabited
+
+/-- The decimal number printed, as sign, numerator, denominator. -/
+def Printed.value : Printed → Bool × Nat × Nat
+  | .zero => (false, 0, 1)
+  | .fixed neg scaled prec => (neg, scaled, 10 ^ prec)
+  | .sci neg m prec e =>
+    let k := e - prec
+    if 0 ≤ k then (neg, m * 10 ^ k.toNat, 1) else (neg, m, 10 ^ (-k).toNat)
+
+def fixedSel (neg : Bool) (prec : Nat) (n d : Nat) : Printed :=
+  .fixed neg (rne (n * 10 ^ prec) d) prec
+
+def sciSel (neg : Bool) (prec : Nat) (n d : Nat) : Printed :=
   let e0 := ilog10Q n d
-  -- mantissa with prec fractional digits: x / 10^(e0 - prec)
   let sh := e0 - prec
   let m := if 0 ≤ sh then rne n (d * 10 ^ sh.toNat) else rne (n * 10 ^ (-sh).toNat) d
-  let (m, e) := if m = 10 ^ (prec + 1) then (10 ^ prec, e0 + 1) else (m, e0)
-  let ds := toString m
-  let mant := if prec = 0 then ds else (ds.take 1).toString ++ "." ++ (ds.drop 1).toString
-  let es := toString e.natAbs
-  mant ++ "e" ++ (if e < 0 then "-" else "+") ++ (if es.length < 2 then "0" ++ es else es)
+  if m = 10 ^ (prec + 1) then .sci neg (10 ^ prec) prec (e0 + 1) else .sci neg m prec e0
 
 /-- Exact non-negative rational value of the magnitude of a finite float. -/
 def magRat : Fl → Option (Nat × Nat)
   | .fin _ m e => if 0 ≤ e then some (m * 2 ^ e.toNat, 1) else some (m, 2 ^ (-e).toNat)
   | _ => none
 
-/-- The thresholds of the cascade: the `double` nearest to each decimal literal, as exact rationals. -/
-def thr (num den : Nat) : Nat × Nat :=
-  match Fl.round F64 false num den with
-  | .fin _ m e => if 0 ≤ e then (m * 2 ^ e.toNat, 1) else (m, 2 ^ (-e).toNat)
+/-- The smallest `long double` that is not less than `num/den`, as an exact rational. -/
+def ceil80 (num den : Nat) : Nat × Nat :=
+  match Fl.round F80 false num den with
+  | .fin _ m e =>
+    let below : Bool := if 0 ≤ e then m * 2 ^ e.toNat * den < num else m * den < num * 2 ^ (-e).toNat
+    let m := if below then m + 1 else m
+    if 0 ≤ e then (m * 2 ^ e.toNat, 1) else (m, 2 ^ (-e).toNat)
   | _ => (num, den)
+
+/-- The thresholds of the cascade as the source writes them: the integers `1 … 10000` exactly, and
+for `0.001`, `0.01`, `0.1` the smallest `long double` not less than the decimal (hex literals in
+Base.hpp), so that `|x| < threshold` decides `|x| < decimal` exactly for all three types.
+`Generated.printThresholds` (read from the source) is proved equal to these in Props/C15. -/
+def thr (num den : Nat) : Nat × Nat :=
+  if den = 1 then (num, 1) else ceil80 num den
 
 /-- `a < b` on non-negative rationals. -/
 def ltR (a b : Nat × Nat) : Bool := a.1 * b.2 < b.1 * a.2
 
-/-- `PhQ::Print(x)` for a finite `x` of format `fm`. -/
-def print (fm : Fm) (x : Fl) : Option String :=
+/-- The interval cascade of `PhQ::Print`: `some prec` = fixed notation with `prec` decimals,
+`none` = scientific notation (with `max_digits10` decimals). -/
+def bandPrec (md : Nat) (a : Nat × Nat) : Option Nat :=
+  if ltR a (thr 1 1) then
+    if ltR a (thr 1 1000) then none
+    else if ltR a (thr 1 10) then
+      (if ltR a (thr 1 100) then some (md + 3) else some (md + 2))
+    else some (md + 1)
+  else if ltR a (thr 1000 1) then
+    if ltR a (thr 10 1) then some md
+    else if ltR a (thr 100 1) then some (md - 1) else some (md - 2)
+  else if ltR a (thr 10000 1) then some (md - 3)
+  else none
+
+/-- Which notation and digits a finite `x` gets. -/
+def select (fm : Fm) (x : Fl) : Option Printed :=
   match magRat x with
   | none => none
   | some a =>
-    let neg := match x with | .fin s _ _ => s | _ => false
+    let neg := x.sign
     let md := maxDigits10 fm
-    let sign := if neg then "-" else ""
-    if a.1 = 0 then some "0"
-    else
-      let body :=
-        if ltR a (thr 1 1) then
-          if ltR a (thr 1 1000) then sciPos md a.1 a.2
-          else if ltR a (thr 1 10) then
-            (if ltR a (thr 1 100) then fixedPos (md + 3) a.1 a.2 else fixedPos (md + 2) a.1 a.2)
-          else fixedPos (md + 1) a.1 a.2
-        else if ltR a (thr 1000 1) then
-          if ltR a (thr 10 1) then fixedPos md a.1 a.2
-          else if ltR a (thr 100 1) then fixedPos (md - 1) a.1 a.2 else fixedPos (md - 2) a.1 a.2
-        else if ltR a (thr 10000 1) then fixedPos (md - 3) a.1 a.2
-        else sciPos md a.1 a.2
-      some (sign ++ body)
+    if a.1 = 0 then some .zero
+    else match bandPrec md a with
+      | some prec => some (fixedSel neg prec a.1 a.2)
+      | none => some (sciSel neg md a.1 a.2)
+
+/-- Text layout of a selection (what `printf` writes). -/
+def Printed.render : Printed → String
+  | .zero => "0"
+  | .fixed neg scaled prec =>
+    let ip := scaled / 10 ^ prec
+    let fp := scaled % 10 ^ prec
+    (if neg then "-" else "") ++
+      (if prec = 0 then toString ip else toString ip ++ "." ++ padLeft prec (toString fp))
+  | .sci neg m prec e =>
+    let ds := toString m
+    let mant := if prec = 0 then ds else (ds.take 1).toString ++ "." ++ (ds.drop 1).toString
+    let es := toString e.natAbs
+    (if neg then "-" else "") ++ mant ++ "e" ++ (if e < 0 then "-" else "+") ++
+      (if es.length < 2 then "0" ++ es else es)
+
+/-- `PhQ::Print(x)` for a finite `x` of format `fm`. -/
+def print (fm : Fm) (x : Fl) : Option String := (select fm x).map Printed.render
+
+/-- Number of significant decimal digits of a selection. -/
+def Printed.sigDigits : Printed → Nat
+  | .zero => 1
+  | .fixed _ scaled _ => (toString scaled).length
+  | .sci _ m _ _ => (toString m).length
+
+/-- Parsing back: the printed decimal number, correctly rounded into the format (the contract of
+`strtof` / `strtod` / `strtold`). -/
+def Printed.parseBack (fm : Fm) (pr : Printed) : Fl :=
+  let (neg, n, d) := pr.value
+  Fl.round fm.fmt neg n d
 
 /-- Number of significant decimal digits in a printed number (digits of the mantissa, leading zeros
 of a fixed-notation fraction excluded). -/
@@ -127,8 +191,17 @@ def parseDecRat (s : String) : Option (Bool × Nat × Nat) :=
       let e := ex - fp.length
       if 0 ≤ e then some (neg, digits * 10 ^ e.toNat, 1) else some (neg, digits, 10 ^ (-e).toNat)
 
-/-- The model of a correctly rounding `strtod` on well-formed decimal text. -/
+/-- The model of `PhQ::ParseNumber` on well-formed decimal text: the value correctly rounded (the
+contract of `strtof/strtod/strtold`); nothing when `std::stof/stod/stold` throws `out_of_range`, i.e.
+when the C function reports `ERANGE`: on overflow, and on an inexact subnormal (or zero) result. -/
 def parseDec (fm : Fm) (s : String) : Option Fl :=
-  (parseDecRat s).map fun (neg, n, d) => Fl.round fm.fmt neg n d
+  match parseDecRat s with
+  | none => none
+  | some (neg, n, d) =>
+    match Fl.round fm.fmt neg n d with
+    | .fin sg m q =>
+      let exact : Bool := if 0 ≤ q then m * 2 ^ q.toNat * d == n else m * d == n * 2 ^ (-q).toNat
+      if m < 2 ^ (fm.fmt.p - 1) && n != 0 && !exact then none else some (.fin sg m q)
+    | _ => none
 
 end PhQVerif.Print
